@@ -628,4 +628,996 @@ theorem Emits.stmtPre (p : P) (hw : W p) (neg : Bool) :
       rfl
     · rw [hsum, step_bang _ hfree]; exact hq.w.ok
 
+
+/-- the terminator `stmtEnd` writes, if any -/
+theorem Emits.stmtEnd (p : P) (hw : W p) (ha : AfterWord p) (hws : p.wroteSemi = false) (semi : Pos) (bg : Bool) :
+    ∃ term : Term, (p.stmtEnd semi bg).sum.toks = p.sum.toks ++ term.toks ∧ W (p.stmtEnd semi bg) ∧
+      Same' p (p.stmtEnd semi bg) ∧ (p.stmtEnd semi bg).wantSpace = .required ∧ (p.stmtEnd semi bg).sum.sk = false ∧
+      (p.stmtEnd semi bg).wroteSemi = (term != .none) ∧ (bg = true → term = .amp) ∧ (bg = false → term ≠ .amp) ∧
+      (p.o.singleLine = true → bg = false → term = .none) ∧
+      (term = .none → ∃ parts, (p.stmtEnd semi bg).sum.last = some (.word parts)) ∧
+      (semi.valid = false → bg = false → term = .none) := by
+  obtain ⟨hi, hiw⟩ := Quiet.incLevel hw
+  have hlast1 : ∃ parts, p.incLevel.sum.last = some (.word parts) ∨ ∃ g, p.incLevel.sum.last = some (.gap g) := by
+    obtain ⟨parts, hl⟩ := ha.last
+    rcases hi.last with h | h
+    · exact ⟨parts, Or.inl (h.trans hl)⟩
+    · exact ⟨parts, Or.inr h⟩
+  unfold P.stmtEnd
+  dsimp only
+  by_cases hc : (semi.valid && decide (semi.line > p.incLevel.line) && !p.incLevel.o.singleLine || bg) = true
+  · rw [if_pos hc]
+    -- layout before the terminator
+    have h2 : ∃ q : P, q = (if (semi.valid && decide (semi.line > p.incLevel.line) && !p.incLevel.o.singleLine) = true
+          then p.incLevel.bslashNewl else if (!p.incLevel.o.minify) = true then p.incLevel.space else p.incLevel) ∧
+        Quiet p.incLevel q := by
+      refine ⟨_, rfl, ?_⟩
+      split
+      · exact (Quiet.bslashNewl hi.w).1
+      · split
+        · exact (Quiet.space hi.w).1
+        · exact Quiet.rfl' hi.w
+    obtain ⟨q, hq, hqq⟩ := h2
+    rw [← hq]
+    have hqlast : ∀ l, q.sum.last = some l →
+        (match l with | .op x => x ≠ [59] ∧ x ≠ [38] ∧ x ≠ [124] ∧ x ≠ [40] | _ => True) := by
+      intro l hl
+      obtain ⟨parts, h1⟩ := hlast1
+      rcases hqq.last with h | ⟨g, h⟩
+      · rw [h] at hl
+        rcases h1 with h1 | ⟨g, h1⟩
+        · rw [h1] at hl; cases hl; trivial
+        · rw [h1] at hl; cases hl; trivial
+      · rw [h] at hl; cases hl; trivial
+    let b : Bytes := if bg then [38] else [59]
+    have hb : b = [59] ∨ b = [38] := by cases bg <;> simp [b]
+    let q2 : P := { (q.tok b) with wroteSemi := true, wantSpace := .required }
+    have hsum2 : q2.sum = q.sum.step (.op b) := P.sum_push q _ _ rfl
+    have hst := step_term q.sum b hb hqlast
+    have hw2 : W q2 := ⟨by rw [hsum2, hst]; exact hqq.w.ok, fun _ _ _ => rfl⟩
+    obtain ⟨hd, hdw⟩ := Quiet.decLevel hw2
+    have hgoal : (if bg = true then P.tok q [38] else P.tok q [59]) = q.tok b := by cases bg <;> rfl
+    rw [hgoal]
+    have hsame : Same' p q2.decLevel := by
+      have s1 := hi.same.weak.trans hqq.same.weak
+      exact s1.trans ((⟨rfl, rfl, rfl, rfl⟩ : Same' q q2).trans hd.same.weak)
+    refine ⟨if bg then .amp else .semi, ?_, hd.w, hsame, by rw [hdw], ?_, ?_, ?_, ?_, ?_, ?_, ?_⟩
+    · rw [hd.toks, hsum2, hst, hqq.toks, hi.toks]
+      cases bg <;> simp [b, Term.toks]
+    · rw [hd.sk, hsum2, hst]
+    · rw [hd.same.wsemi]
+      cases bg <;> rfl
+    · intro h; simp [h]
+    · intro h; simp [h]
+    · intro hsl hbg
+      subst hbg
+      have ho : p.incLevel.o = p.o := hi.same.o
+      simp [ho, hsl] at hc
+    · intro h
+      cases bg <;> simp at h
+    · intro hsv hbg
+      subst hbg
+      simp [hsv] at hc
+  · rw [if_neg hc]
+    have hbg : bg = false := by
+      cases bg with
+      | false => rfl
+      | true => simp at hc
+    obtain ⟨hd, hdw⟩ := Quiet.decLevel hi.w
+    have hq := hi.trans hd
+    refine ⟨.none, by simp [Term.toks, hq.toks], hq.w, hq.same.weak, by rw [hdw, hiw]; exact ha.ws,
+      by rw [hq.sk]; exact ha.sk, by rw [hq.same.wsemi, hws]; rfl, ?_, ?_, fun _ _ => rfl, fun _ => ?_, fun _ _ => rfl⟩
+    · intro h; rw [hbg] at h; cases h
+    · intro _; simp
+    obtain ⟨parts, hl⟩ := ha.last
+    refine ⟨parts, ?_⟩
+    have e1 : p.incLevel.decLevel.sum = p.incLevel.sum := by
+      unfold P.decLevel; split <;> exact P.sum_same _ _ rfl
+    have e2 : p.incLevel.sum = p.sum := by
+      unfold P.incLevel; split
+      · exact P.sum_same _ _ rfl
+      · split <;> exact P.sum_same _ _ rfl
+    rw [e1, e2]; exact hl
+
+
+/-! ## A statement that is a simple command -/
+
+theorem Emits.stmt_call (p : P) (hw : W p) (pos semi : Pos) (neg bg : Bool) (args : List Word)
+    (hne : args ≠ []) (hwf : ∀ w ∈ args, w.wf = true) :
+    ∃ term : Term,
+      (p.stmt (.mk pos semi neg bg (.call args))).sum.toks =
+        p.sum.toks ++ ((if neg then [ATok.bang] else []) ++ ((args.map fun w => ATok.word w.norm) ++ term.toks)) ∧
+      W (p.stmt (.mk pos semi neg bg (.call args))) ∧ Same' p (p.stmt (.mk pos semi neg bg (.call args))) ∧
+      (p.stmt (.mk pos semi neg bg (.call args))).wantSpace = .required ∧
+      (p.stmt (.mk pos semi neg bg (.call args))).sum.sk = false ∧
+      (p.stmt (.mk pos semi neg bg (.call args))).wroteSemi = (term != .none) ∧
+      (bg = true → term = .amp) ∧ (bg = false → term ≠ .amp) ∧
+      (p.o.singleLine = true → bg = false → term = .none) ∧
+      (term = .none → ∃ parts, (p.stmt (.mk pos semi neg bg (.call args))).sum.last = some (.word parts)) := by
+  unfold P.stmt
+  obtain ⟨h1, h2, h3, _⟩ := Emits.stmtPre p hw neg
+  obtain ⟨c1, c2⟩ := Emits.command_call args hne hwf (p.stmtPre neg) h2
+  have hws : ((p.stmtPre neg).command (.call args)).wroteSemi = false := by
+    rw [c1.same.wsemi]
+    unfold P.stmtPre
+    dsimp only
+    split
+    · unfold P.spacedString P.spacePad
+      split <;> rfl
+    · rfl
+  obtain ⟨term, e1, e2, e3, e4, e5, e6, e7, e8, e9, e10, _⟩ := Emits.stmtEnd _ c1.w c2 hws semi bg
+  refine ⟨term, ?_, e2, (h3.trans c1.same.weak).trans e3, e4, e5, e6, e7, e8, ?_, e10⟩
+  · rw [e1, c1.toks, h1]
+    simp [List.append_assoc]
+  · intro hsl
+    apply e9
+    rw [c1.same.o, h3.o]
+    exact hsl
+
+/-! ## Between two statements -/
+
+/-- the state right after a statement of a list (and `p.wantNewline = true` set by the loop) -/
+structure Post (p : P) : Prop where
+  w : W p
+  ws : p.wantSpace = .required
+  wnl : p.wantNewline = true
+  must : p.mustNewline = false
+  first : p.firstLine = false
+  sk : p.sum.sk = false
+  last : p.wroteSemi = false → ∃ parts, p.sum.last = some (.word parts)
+  notRefused : refuse p.o = false
+
+theorem newlines_post (p : P) (hp : Post p) (hsl : p.o.singleLine = false) (l : Nat) :
+    (p.newlines l).sum.toks = p.sum.toks ++ [.newl] ∧ W (p.newlines l) ∧ (p.newlines l).sum.sk = true ∧
+      (p.newlines l).o = p.o ∧ (p.newlines l).mustNewline = false ∧ (p.newlines l).firstLine = false := by
+  unfold P.newlines
+  have hwn : p.wantsNewline l false = true := by
+    simp [P.wantsNewline, hp.must, hsl, hp.wnl]
+  simp only [hp.first, Bool.false_eq_true, ↓reduceIte, hwn, Bool.not_true]
+  -- first newline
+  let q1 : P := { (p.gapw [10]) with wantSpace := .written, wantNewline := false, mustNewline := false }
+  have hs1 : q1.sum = p.sum.step (.gap [10]) := P.sum_push p _ _ rfl
+  have hw1 : W q1 := ⟨by rw [hs1, step_nl]; exact hp.w.ok, by
+    intro x hx hn
+    rw [hs1, step_nl] at hx
+    simp only [Option.some.injEq] at hx
+    subst hx
+    simp [needsGap] at hn⟩
+  -- optional second newline
+  have h2 : ∃ q2 : P, q2 = (if (decide (l > q1.line + 1) && !q1.o.minify) = true then q1.gapw [10] else q1) ∧
+      q2.sum.toks = q1.sum.toks ∧ q2.sum.sk = true ∧ W q2 ∧ q2.o = p.o ∧ q2.mustNewline = false ∧ q2.firstLine = false := by
+    refine ⟨_, rfl, ?_⟩
+    split
+    · have hs2 : (q1.gapw [10]).sum = q1.sum.step (.gap [10]) := P.sum_push q1 _ _ rfl
+      have hsk1 : q1.sum.sk = true := by rw [hs1, step_nl]
+      refine ⟨by rw [hs2, step_nl, hsk1]; simp, by rw [hs2, step_nl], ⟨by rw [hs2, step_nl]; exact hw1.ok, ?_⟩, rfl, rfl, hp.first⟩
+      intro x hx hn
+      rw [hs2, step_nl] at hx
+      simp only [Option.some.injEq] at hx
+      subst hx
+      simp [needsGap] at hn
+    · exact ⟨rfl, by rw [hs1, step_nl], hw1, rfl, rfl, hp.first⟩
+  obtain ⟨q2, hq2, t2, k2, w2, o2, m2, f2⟩ := h2
+  show ((if (decide (l > q1.line + 1) && !q1.o.minify) = true then q1.gapw [10] else q1).advanceLine l).indent.sum.toks = _ ∧ _
+  rw [← hq2]
+  have qa := Quiet.advanceLine w2 l
+  obtain ⟨qi, _⟩ := Quiet.indent qa.w
+  have q := qa.trans qi
+  refine ⟨?_, q.w, by rw [q.sk, k2], by rw [q.same.o, o2], by rw [q.same.must, m2], by rw [q.same.first, f2]⟩
+  rw [q.toks, t2, hs1, step_nl, hp.sk]
+  simp
+
+
+theorem stmtSep_post (p : P) (hp : Post p) (l : Nat) :
+    ∃ pre, (p.stmtSep false l).sum.toks = p.sum.toks ++ pre ∧ W (p.stmtSep false l) ∧ (p.stmtSep false l).o = p.o ∧
+      (p.stmtSep false l).mustNewline = false ∧ (p.stmtSep false l).firstLine = false ∧
+      ((p.o.singleLine = false ∧ pre = [.newl]) ∨
+       (p.o.singleLine = true ∧ pre = (if p.wroteSemi then [] else [ATok.semi]))) := by
+  cases hsl : p.o.singleLine with
+  | false =>
+    have hsep : p.stmtSep false l = (p.newlines l).advanceLine l := by
+      unfold P.stmtSep
+      simp [hsl, hp.ws]
+    rw [hsep]
+    obtain ⟨n1, n2, n3, n4, n5, n6⟩ := newlines_post p hp hsl l
+    have qa := Quiet.advanceLine n2 l
+    exact ⟨[.newl], by rw [qa.toks, n1], qa.w, by rw [qa.same.o, n4], by rw [qa.same.must, n5],
+      by rw [qa.same.first, n6], Or.inl ⟨rfl, rfl⟩⟩
+  | true =>
+    have hmin : p.o.minify = false := by
+      have := hp.notRefused
+      simp only [refuse, hsl, Bool.and_true] at this
+      exact this
+    cases hws : p.wroteSemi with
+    | true =>
+      have hnl : p.newlines l = p := by
+        unfold P.newlines
+        simp [hp.first, P.wantsNewline, hp.must, hsl]
+      have hsep : p.stmtSep false l = p.advanceLine l := by
+        unfold P.stmtSep
+        simp [hsl, hws, hmin, hnl]
+      rw [hsep]
+      have qa := Quiet.advanceLine hp.w l
+      exact ⟨[], by simp [qa.toks], qa.w, qa.same.o, by rw [qa.same.must, hp.must], by rw [qa.same.first, hp.first],
+        Or.inr ⟨rfl, by simp⟩⟩
+    | false =>
+      let q1 : P := { (p.tok [59]) with wantSpace := .required }
+      have hs1 : q1.sum = p.sum.step (.op [59]) := P.sum_push p _ _ rfl
+      have hlast : ∀ x, p.sum.last = some x →
+          (match x with | .op y => y ≠ [59] ∧ y ≠ [38] ∧ y ≠ [124] ∧ y ≠ [40] | _ => True) := by
+        intro x hx
+        obtain ⟨parts, hl⟩ := hp.last hws
+        rw [hl] at hx
+        cases hx
+        trivial
+      have hst := step_term p.sum [59] (Or.inl rfl) hlast
+      have hw1 : W q1 := ⟨by rw [hs1, hst]; exact hp.w.ok, fun _ _ _ => rfl⟩
+      have hnl : q1.newlines l = q1 := by
+        unfold P.newlines
+        have h1 : q1.firstLine = false := hp.first
+        have h2 : q1.wantsNewline l false = false := by
+          show (if p.mustNewline = true then true else if p.o.singleLine = true then false else _) = false
+          simp [hp.must, hsl]
+        simp [h1, h2]
+      have hsep : p.stmtSep false l = q1.advanceLine l := by
+        unfold P.stmtSep
+        have hc : (!false && p.o.singleLine && p.wantNewline && !p.wroteSemi) = true := by
+          simp [hsl, hp.wnl, hws]
+        simp only [hc, ↓reduceIte]
+        have hcond : (q1.mustNewline || !q1.o.minify || decide (q1.wantSpace = .required)) = true := by
+          show (p.mustNewline || !p.o.minify || decide (WS.required = WS.required)) = true
+          simp
+        show (if (q1.mustNewline || !q1.o.minify || decide (q1.wantSpace = .required)) = true then q1.newlines l else q1).advanceLine l = _
+        rw [if_pos hcond, hnl]
+      rw [hsep]
+      have qa := Quiet.advanceLine hw1 l
+      refine ⟨[.semi], ?_, qa.w, by rw [qa.same.o]; rfl, by rw [qa.same.must]; exact hp.must,
+        by rw [qa.same.first]; exact hp.first, Or.inr ⟨rfl, by simp⟩⟩
+      rw [qa.toks, hs1, hst]
+      simp
+
+
+/-! ## Norms of well-formed words are acceptable to the parser -/
+
+theorem normParts_nil {parts : List WordPart} (h : normParts parts = []) : parts = [] := by
+  cases parts with
+  | nil => rfl
+  | cons p rest =>
+    cases p with
+    | lit a e v =>
+      simp only [normParts] at h
+      split at h <;> cases h
+    | sgl l r v => simp [normParts] at h
+
+theorem normParts_single_lit : ∀ (parts : List WordPart) (v : Bytes), (∀ p ∈ parts, p.wf = true) →
+    normParts parts = [.lit v] → (Word.mk parts).litValue? = some v ∧ (∀ b ∈ v, isSafe b = true) ∧ v ≠ [] := by
+  intro parts
+  induction parts with
+  | nil => intro v _ h; simp [normParts] at h
+  | cons p rest ih =>
+    intro v hw h
+    have hrest : ∀ q ∈ rest, q.wf = true := fun q hq => hw q (by simp [hq])
+    cases p with
+    | sgl l r x => simp [normParts] at h
+    | lit a e v1 =>
+      obtain ⟨_, hne, hsafe⟩ := WordPart.wf_lit_bytes (hw (.lit a e v1) (by simp))
+      simp only [normParts] at h
+      split at h
+      · rename_i v' r hnr
+        simp only [List.cons.injEq, NPart.lit.injEq] at h
+        obtain ⟨rfl, rfl⟩ := h
+        obtain ⟨i1, i2, _⟩ := ih v' hrest hnr
+        refine ⟨?_, ?_, by simp [hne]⟩
+        · simp only [Word.litValue?, List.foldr_cons] at i1 ⊢
+          rw [i1]
+        · intro b hb
+          simp only [List.mem_append] at hb
+          rcases hb with hb | hb
+          · exact hsafe b hb
+          · exact i2 b hb
+      · rename_i hnot
+        simp only [List.cons.injEq, NPart.lit.injEq] at h
+        obtain ⟨rfl, hr⟩ := h
+        have := normParts_nil hr
+        subst this
+        exact ⟨by simp [Word.litValue?], hsafe, hne⟩
+
+theorem Word.norm_ok (w : Word) (hw : w.wf = true) : nwordOK w.norm = true := by
+  unfold nwordOK
+  split
+  · rename_i v hv
+    obtain ⟨_, hs, _⟩ := normParts_single_lit w.parts v (Word.wf_parts hw) hv
+    have key : ∀ v : Bytes, (∀ b ∈ v, isSafe b = true) → (v != [123] && v != [125] && v != [33]) = true := by
+      intro v hs
+      cases v with
+      | nil => rfl
+      | cons b t =>
+        have hb := safe_facts b (hs b (by simp))
+        simp only [Bool.and_eq_true, bne_iff_ne, ne_eq, List.cons.injEq, not_and]
+        refine ⟨⟨fun h => ?_, fun h => ?_⟩, fun h => ?_⟩ <;> subst h <;> simp at hb
+    exact key v hs
+  · rfl
+
+theorem Word.norm_name_ok (w : Word) (hw : w.wf = true) (hn : w.cmdNameOK = true) : ncmdNameOK w.norm = true := by
+  unfold ncmdNameOK
+  split
+  · rename_i v hv
+    obtain ⟨hl, _, _⟩ := normParts_single_lit w.parts v (Word.wf_parts hw) hv
+    unfold Word.cmdNameOK at hn
+    have : w.litValue? = some v := hl
+    rw [this] at hn
+    exact hn
+  · rfl
+
+
+/-! ## Lists of simple commands -/
+
+/-- every statement of the list is a simple command (no subshell, block or binary command) -/
+def Stmts.flat : Stmts → Bool
+  | .nil => true
+  | .cons (.mk _ _ _ _ (.call _)) r => r.flat
+  | .cons _ _ => false
+
+/-- the layout statement of a simple command -/
+def mkL (neg : Bool) (args : List Word) (term : Term) : LStmt := .mk neg (.call (args.map Word.norm)) term
+
+theorem mkL_valid (neg : Bool) (args : List Word) (term : Term) (hc : (Cmd.call args).wf = true) :
+    (mkL neg args term).valid = true := by
+  cases args with
+  | nil => simp [Cmd.wf] at hc
+  | cons w rest =>
+    simp only [Cmd.wf, Bool.and_eq_true, List.all_eq_true] at hc
+    obtain ⟨hall, hname⟩ := hc
+    simp only [mkL, LStmt.valid, LCmd.valid, List.map_cons, LCmd.isAndOr, Bool.and_false, Bool.not_false, Bool.and_true,
+      Bool.and_eq_true, List.all_eq_true]
+    refine ⟨?_, Word.norm_name_ok w (hall w (by simp)) hname⟩
+    intro n hn
+    simp only [List.mem_cons, List.mem_map] at hn
+    rcases hn with rfl | ⟨x, hx, rfl⟩
+    · exact Word.norm_ok w (hall w (by simp))
+    · exact Word.norm_ok x (hall x (by simp [hx]))
+
+theorem mkL_toks (neg : Bool) (args : List Word) (term : Term) :
+    (mkL neg args term).toks = (if neg then [ATok.bang] else []) ++ ((args.map fun w => ATok.word w.norm) ++ term.toks) := by
+  simp [mkL, LStmt.toks, LCmd.toks, List.map_map, Function.comp_def]
+
+theorem Stmts.flat_cons {s : Stmt} {r : Stmts} (h : (Stmts.cons s r).flat = true) :
+    ∃ pos semi neg bg args, s = .mk pos semi neg bg (.call args) ∧ r.flat = true := by
+  obtain ⟨pos, semi, neg, bg, cmd⟩ := s
+  cases cmd with
+  | call args => exact ⟨pos, semi, neg, bg, args, rfl, by simpa [Stmts.flat] using h⟩
+  | subshell _ _ _ => simp [Stmts.flat] at h
+  | block _ _ _ => simp [Stmts.flat] at h
+  | binary _ _ _ _ => simp [Stmts.flat] at h
+
+theorem call_wf_args {args : List Word} (h : (Cmd.call args).wf = true) : args ≠ [] ∧ ∀ w ∈ args, w.wf = true := by
+  cases args with
+  | nil => simp [Cmd.wf] at h
+  | cons w rest =>
+    simp only [Cmd.wf, Bool.and_eq_true, List.all_eq_true] at h
+    exact ⟨by simp, h.1⟩
+
+/-- whether a newline token follows the last statement of the layout -/
+def LStmts.finalNl : LStmts → Bool
+  | .one _ nl => nl
+  | .cons _ _ rest => rest.finalNl
+
+/-- the layout with a newline after its last statement -/
+def LStmts.withFinalNl : LStmts → LStmts
+  | .one s _ => .one s true
+  | .cons s nl rest => .cons s nl rest.withFinalNl
+
+theorem LStmts.withFinalNl_facts : ∀ (lt : LStmts), lt.finalNl = false →
+    lt.withFinalNl.toks = lt.toks ++ [.newl] ∧ lt.withFinalNl.valid = lt.valid ∧ lt.withFinalNl.norm = lt.norm
+  | .one s nl, h => by
+    simp only [LStmts.finalNl] at h
+    subst h
+    simp [LStmts.withFinalNl, LStmts.toks, nlT, LStmts.valid, LStmts.norm]
+  | .cons s nl rest, h => by
+    obtain ⟨h1, h2, h3⟩ := LStmts.withFinalNl_facts rest (by simpa [LStmts.finalNl] using h)
+    simp [LStmts.withFinalNl, LStmts.toks, LStmts.valid, LStmts.norm, h1, h2, h3, List.append_assoc]
+
+/-- what the loop has written when it is done -/
+structure Done (p0 p : P) : Prop where
+  w : W p
+  sk : p.sum.sk = false
+  o : p.o = p0.o
+
+/-- The statement loop on a list of simple commands, started after a previous statement: the
+    tokens are a separator followed by the tokens of a valid layout of the list. -/
+theorem loop_flat : ∀ (ss : Stmts), ss.flat = true → ss.wf = true → ss ≠ .nil → ∀ (p : P), Post p →
+    ∃ (pre : List ATok) (lt : LStmts),
+      (p.stmtListLoop false ss).sum.toks = p.sum.toks ++ (pre ++ lt.toks) ∧ lt.valid = true ∧ lt.norm = ss.norm ∧
+      lt.finalNl = false ∧ Done p (p.stmtListLoop false ss) ∧
+      ((p.o.singleLine = false ∧ pre = [.newl]) ∨
+       (p.o.singleLine = true ∧ pre = (if p.wroteSemi then [] else [ATok.semi])))
+  | .nil, _, _, hne, _, _ => absurd rfl hne
+  | .cons s rest, hflat, hwf, _, p, hp => by
+    obtain ⟨pos, semi, neg, bg, args, rfl, hrflat⟩ := Stmts.flat_cons hflat
+    obtain ⟨hswf, hrwf⟩ := Stmts.wf_cons hwf
+    have hcwf : (Cmd.call args).wf = true := by
+      simp only [Stmt.wf, Bool.and_eq_true] at hswf
+      exact hswf.1
+    obtain ⟨hane, hawf⟩ := call_wf_args hcwf
+    obtain ⟨pre, t1, w1, o1, m1, f1, hpre⟩ := stmtSep_post p hp pos.line
+    obtain ⟨term, e1, e2, e3, e4, e5, e6, e7, e8, e9, e10⟩ :=
+      Emits.stmt_call (p.stmtSep false pos.line) w1 pos semi neg bg args hane hawf
+    unfold P.stmtListLoop
+    dsimp only [Stmt.pos]
+    -- the state after this statement
+    let ps : P := { ((p.stmtSep false pos.line).stmt (.mk pos semi neg bg (.call args))) with wantNewline := true }
+    have hsum : ps.sum = ((p.stmtSep false pos.line).stmt (.mk pos semi neg bg (.call args))).sum := rfl
+    have hpost : Post ps := by
+      refine ⟨⟨e2.ok, e2.gap⟩, e4, rfl, ?_, ?_, e5, ?_, ?_⟩
+      · show ((p.stmtSep false pos.line).stmt _).mustNewline = false
+        rw [e3.must, m1]
+      · show ((p.stmtSep false pos.line).stmt _).firstLine = false
+        rw [e3.first, f1]
+      · intro h
+        have h' : ((p.stmtSep false pos.line).stmt (.mk pos semi neg bg (.call args))).wroteSemi = false := h
+        rw [e6] at h'
+        have : term = .none := by
+          cases term <;> simp at h' ⊢
+        exact e10 this
+      · show refuse ((p.stmtSep false pos.line).stmt _).o = false
+        rw [e3.o, o1]
+        exact hp.notRefused
+    have hbg : (term == Term.amp) = bg := by
+      cases bg with
+      | true => rw [e7 rfl]; rfl
+      | false =>
+        have := e8 rfl
+        cases term <;> simp at this ⊢
+    have hnorm : ∀ t : Term, (t == Term.amp) = bg → (mkL neg args t).norm = (Stmt.mk pos semi neg bg (.call args)).norm := by
+      intro t ht
+      simp [mkL, LStmt.norm, LCmd.norm, Stmt.norm, Cmd.norm, ht]
+    cases rest with
+    | nil =>
+      -- last statement of the list
+      refine ⟨pre, .one (mkL neg args term) false, ?_, ?_, ?_, rfl, ?_, hpre⟩
+      · show ps.sum.toks = _
+        rw [hsum, e1, t1]
+        simp [LStmts.toks, mkL_toks, nlT, List.append_assoc]
+      · simpa [LStmts.valid] using mkL_valid neg args term hcwf
+      · simp [LStmts.norm, Stmts.norm, hnorm term hbg]
+      · exact ⟨hpost.w, hpost.sk, by show ((p.stmtSep false pos.line).stmt _).o = p.o; rw [e3.o, o1]⟩
+    | cons s2 rest2 =>
+      have hrne : Stmts.cons s2 rest2 ≠ .nil := by simp
+      obtain ⟨pre2, lt2, r1, r2, r3, rf, r4, r5⟩ := loop_flat (.cons s2 rest2) hrflat hrwf hrne ps hpost
+      have hpso : ps.o = p.o := by show ((p.stmtSep false pos.line).stmt _).o = p.o; rw [e3.o, o1]
+      have hpsws : ps.wroteSemi = (term != .none) := e6
+      -- attach the separator to this statement
+      rcases r5 with ⟨hs, rfl⟩ | ⟨hs, rfl⟩
+      · -- newline
+        refine ⟨pre, .cons (mkL neg args term) true lt2, ?_, ?_, ?_, rf, ?_, hpre⟩
+        · rw [r1, hsum, e1, t1]
+          simp [LStmts.toks, mkL_toks, nlT, List.append_assoc]
+        · simp [LStmts.valid, mkL_valid neg args term hcwf, r2]
+        · simp [LStmts.norm, Stmts.norm, hnorm term hbg, r3]
+        · exact ⟨r4.w, r4.sk, r4.o.trans hpso⟩
+      · -- single line: `;` or nothing after a terminator
+        rw [hpso] at hs
+        cases hterm : term with
+        | none =>
+          have hws0 : ps.wroteSemi = false := by rw [hpsws, hterm]; rfl
+          have hbg0 : bg = false := by
+            cases bg with
+            | false => rfl
+            | true => have := e7 rfl; rw [hterm] at this; cases this
+          refine ⟨pre, .cons (mkL neg args .semi) false lt2, ?_, ?_, ?_, rf, ?_, hpre⟩
+          · rw [r1, hsum, e1, t1, hws0, hterm]
+            simp [LStmts.toks, mkL_toks, nlT, Term.toks, List.append_assoc]
+          · simp only [LStmts.valid, mkL_valid neg args .semi hcwf, r2]
+            rfl
+          · simp [LStmts.norm, Stmts.norm, hnorm .semi (by rw [hbg0]; rfl), r3]
+          · exact ⟨r4.w, r4.sk, r4.o.trans hpso⟩
+        | semi =>
+          have hws1 : ps.wroteSemi = true := by rw [hpsws, hterm]; rfl
+          refine ⟨pre, .cons (mkL neg args .semi) false lt2, ?_, ?_, ?_, rf, ?_, hpre⟩
+          · rw [r1, hsum, e1, t1, hws1, hterm]
+            simp [LStmts.toks, mkL_toks, nlT, Term.toks, List.append_assoc]
+          · simp only [LStmts.valid, mkL_valid neg args .semi hcwf, r2]
+            rfl
+          · simp [LStmts.norm, Stmts.norm, hnorm .semi (by rw [← hbg, hterm]), r3]
+          · exact ⟨r4.w, r4.sk, r4.o.trans hpso⟩
+        | amp =>
+          have hws1 : ps.wroteSemi = true := by rw [hpsws, hterm]; rfl
+          refine ⟨pre, .cons (mkL neg args .amp) false lt2, ?_, ?_, ?_, rf, ?_, hpre⟩
+          · rw [r1, hsum, e1, t1, hws1, hterm]
+            simp [LStmts.toks, mkL_toks, nlT, Term.toks, List.append_assoc]
+          · simp only [LStmts.valid, mkL_valid neg args .amp hcwf, r2]
+            rfl
+          · simp [LStmts.norm, Stmts.norm, hnorm .amp (by rw [← hbg, hterm]), r3]
+          · exact ⟨r4.w, r4.sk, r4.o.trans hpso⟩
+
+
+/-! ## The whole file -/
+
+theorem W.init (o : Opts) : W (P.init o) := ⟨rfl, fun l hl _ => by simp [P.sum, P.init, summarize] at hl⟩
+
+/-- before the first statement nothing is written -/
+theorem stmtSep_first (o : Opts) (l : Nat) :
+    ((P.init o).stmtSep true l).out = [] ∧ ((P.init o).stmtSep true l).firstLine = false ∧
+    ((P.init o).stmtSep true l).mustNewline = false ∧ ((P.init o).stmtSep true l).o = o := by
+  unfold P.stmtSep
+  cases hm : o.minify with
+  | true => simp [P.init, hm, P.advanceLine]
+  | false => simp [P.init, hm, P.newlines, P.advanceLine]
+
+theorem P.stmtListWith_out (p : P) (ss : Stmts) (loop : P → P) :
+    (p.stmtListWith ss loop).out = (loop p).out ∧ (p.stmtListWith ss loop).panicked = (loop p).panicked := by
+  unfold P.stmtListWith
+  dsimp only
+  (repeat' split) <;> exact ⟨rfl, rfl⟩
+
+/-- The printer half of the round trip for programs made of simple commands: for every option
+    set and every assignment of positions the bytes printed are a concrete syntax of the tree. -/
+theorem print_in_Prints_flat (o : Opts) (f : File) (b : Bytes) (hwf : f.wf = true) (hflat : f.stmts.flat = true)
+    (hne : f.stmts ≠ .nil) (hp : printFile o f = .ok b) :
+    ∃ (ps : List Piece) (lt : LStmts), b = render ps ∧ lexChain ps = true ∧ lt.valid = true ∧
+      expect false ps = nlT false ++ (lt.toks ++ [.eof]) ∧ lt.norm = f.norm := by
+  unfold printFile at hp
+  split at hp
+  · cases hp
+  · rename_i href
+    have href' : refuse o = false := by simpa using href
+    -- no panic
+    have hinv := ((Inv.init o).stmtList f.stmts hwf).newline 0
+    rw [hinv.finish] at hp
+    simp only [Except.ok.injEq] at hp
+    subst hp
+    obtain ⟨ss⟩ := f
+    simp only at hwf hflat hne
+    cases ss with
+    | nil => exact absurd rfl hne
+    | cons s rest =>
+      obtain ⟨pos, semi, neg, bg, args, rfl, hrflat⟩ := Stmts.flat_cons hflat
+      obtain ⟨hswf, hrwf⟩ := Stmts.wf_cons hwf
+      have hcwf : (Cmd.call args).wf = true := by
+        simp only [Stmt.wf, Bool.and_eq_true] at hswf
+        exact hswf.1
+      obtain ⟨hane, hawf⟩ := call_wf_args hcwf
+      obtain ⟨s1, s2, s3, s4⟩ := stmtSep_first o pos.line
+      have hw0 : W ((P.init o).stmtSep true pos.line) :=
+        ⟨by simp [P.sum, s1, summarize], fun l hl _ => by simp [P.sum, s1, summarize] at hl⟩
+      have hsum0 : ((P.init o).stmtSep true pos.line).sum.toks = [] := by simp [P.sum, s1, summarize]
+      obtain ⟨term, e1, e2, e3, e4, e5, e6, e7, e8, e9, e10⟩ :=
+        Emits.stmt_call ((P.init o).stmtSep true pos.line) hw0 pos semi neg bg args hane hawf
+      let ps : P := { (((P.init o).stmtSep true pos.line).stmt (.mk pos semi neg bg (.call args))) with wantNewline := true }
+      have hpost : Post ps := by
+        refine ⟨⟨e2.ok, e2.gap⟩, e4, rfl, ?_, ?_, e5, ?_, ?_⟩
+        · show (((P.init o).stmtSep true pos.line).stmt _).mustNewline = false
+          rw [e3.must, s3]
+        · show (((P.init o).stmtSep true pos.line).stmt _).firstLine = false
+          rw [e3.first, s2]
+        · intro h
+          have h' : (((P.init o).stmtSep true pos.line).stmt (.mk pos semi neg bg (.call args))).wroteSemi = false := h
+          rw [e6] at h'
+          have : term = .none := by cases term <;> simp at h' ⊢
+          exact e10 this
+        · show refuse (((P.init o).stmtSep true pos.line).stmt _).o = false
+          rw [e3.o, s4]
+          exact href'
+      have hbg : (term == Term.amp) = bg := by
+        cases bg with
+        | true => rw [e7 rfl]; rfl
+        | false =>
+          have := e8 rfl
+          cases term <;> simp at this ⊢
+      have hnorm : ∀ t : Term, (t == Term.amp) = bg → (mkL neg args t).norm = (Stmt.mk pos semi neg bg (.call args)).norm := by
+        intro t ht
+        simp [mkL, LStmt.norm, LCmd.norm, Stmt.norm, Cmd.norm, ht]
+      -- the loop, then the final newline
+      have hloop : ∃ (lt : LStmts) (pf : P), pf = (P.init o).stmtListLoop true (.cons (.mk pos semi neg bg (.call args)) rest) ∧
+          pf.sum.toks = lt.toks ∧ lt.valid = true ∧ lt.norm = (Stmts.cons (.mk pos semi neg bg (.call args)) rest).norm ∧
+          lt.finalNl = false ∧ W pf ∧ pf.sum.sk = false := by
+        have hunf : (P.init o).stmtListLoop true (.cons (.mk pos semi neg bg (.call args)) rest) =
+            ps.stmtListLoop false rest := by
+          rw [P.stmtListLoop]
+          rfl
+        rw [hunf]
+        cases rest with
+        | nil =>
+          refine ⟨.one (mkL neg args term) false, ps, by rw [P.stmtListLoop], ?_, ?_, ?_, rfl, hpost.w, hpost.sk⟩
+          · show (((P.init o).stmtSep true pos.line).stmt _).sum.toks = _
+            rw [e1, hsum0]
+            simp [LStmts.toks, mkL_toks, nlT]
+          · simpa [LStmts.valid] using mkL_valid neg args term hcwf
+          · simp [LStmts.norm, Stmts.norm, hnorm term hbg]
+        | cons s2 rest2 =>
+          obtain ⟨pre2, lt2, r1, r2, r3, rf, r4, r5⟩ := loop_flat (.cons s2 rest2) hrflat hrwf (by simp) ps hpost
+          have hpso : ps.o = o := by
+            show (((P.init o).stmtSep true pos.line).stmt _).o = o
+            rw [e3.o, s4]
+          have hpsws : ps.wroteSemi = (term != .none) := e6
+          have hpstoks : ps.sum.toks = (mkL neg args term).toks := by
+            show (((P.init o).stmtSep true pos.line).stmt _).sum.toks = _
+            rw [e1, hsum0]
+            simp [mkL_toks]
+          rcases r5 with ⟨hs, rfl⟩ | ⟨hs, rfl⟩
+          · refine ⟨.cons (mkL neg args term) true lt2, _, rfl, ?_, ?_, ?_, rf, r4.w, r4.sk⟩
+            · rw [r1, hpstoks]
+              simp [LStmts.toks, nlT]
+            · simp [LStmts.valid, mkL_valid neg args term hcwf, r2]
+            · simp [LStmts.norm, Stmts.norm, hnorm term hbg, r3]
+          · cases hterm : term with
+            | none =>
+              have hws0 : ps.wroteSemi = false := by rw [hpsws, hterm]; rfl
+              have hbg0 : bg = false := by
+                cases bg with
+                | false => rfl
+                | true => have := e7 rfl; rw [hterm] at this; cases this
+              refine ⟨.cons (mkL neg args .semi) false lt2, _, rfl, ?_, ?_, ?_, rf, r4.w, r4.sk⟩
+              · rw [r1, hpstoks, hws0, hterm]
+                simp [LStmts.toks, mkL_toks, nlT, Term.toks, List.append_assoc]
+              · simp only [LStmts.valid, mkL_valid neg args .semi hcwf, r2]
+                rfl
+              · simp [LStmts.norm, Stmts.norm, hnorm .semi (by rw [hbg0]; rfl), r3]
+            | semi =>
+              have hws1 : ps.wroteSemi = true := by rw [hpsws, hterm]; rfl
+              refine ⟨.cons (mkL neg args .semi) false lt2, _, rfl, ?_, ?_, ?_, rf, r4.w, r4.sk⟩
+              · rw [r1, hpstoks, hws1, hterm]
+                simp [LStmts.toks, mkL_toks, nlT, Term.toks, List.append_assoc]
+              · simp only [LStmts.valid, mkL_valid neg args .semi hcwf, r2]
+                rfl
+              · simp [LStmts.norm, Stmts.norm, hnorm .semi (by rw [← hbg, hterm]), r3]
+            | amp =>
+              have hws1 : ps.wroteSemi = true := by rw [hpsws, hterm]; rfl
+              refine ⟨.cons (mkL neg args .amp) false lt2, _, rfl, ?_, ?_, ?_, rf, r4.w, r4.sk⟩
+              · rw [r1, hpstoks, hws1, hterm]
+                simp [LStmts.toks, mkL_toks, nlT, Term.toks, List.append_assoc]
+              · simp only [LStmts.valid, mkL_valid neg args .amp hcwf, r2]
+                rfl
+              · simp [LStmts.norm, Stmts.norm, hnorm .amp (by rw [← hbg, hterm]), r3]
+      obtain ⟨lt, pf, hpf, ht, hv, hn, hfn, hwpf, hskpf⟩ := hloop
+      obtain ⟨f1, f2, f3⟩ := LStmts.withFinalNl_facts lt hfn
+      -- the output
+      have hout : (((P.init o).stmtList (.cons (.mk pos semi neg bg (.call args)) rest)).newline 0).out =
+          .gap [10] :: pf.out := by
+        have := (P.stmtListWith_out (P.init o) (.cons (.mk pos semi neg bg (.call args)) rest)
+          (fun q => q.stmtListLoop true (.cons (.mk pos semi neg bg (.call args)) rest))).1
+        unfold P.stmtList
+        show Piece.gap [10] :: _ = _
+        rw [this, hpf]
+      refine ⟨_, lt.withFinalNl, rfl, ?_⟩
+      have hsumF : summarize {} ((((P.init o).stmtList (.cons (.mk pos semi neg bg (.call args)) rest)).newline 0).out.reverse) =
+          pf.sum.step (.gap [10]) := by
+        rw [hout]
+        simp [P.sum, summarize, List.foldl_append]
+      obtain ⟨c1, c2⟩ := lexChain_expect_init _ (by rw [hsumF, step_nl]; exact hwpf.ok) (by rw [hsumF, step_nl]; rfl)
+      refine ⟨c1, by rw [f2]; exact hv, ?_, by rw [f3, hn]; rfl⟩
+      rw [c2, hsumF, step_nl, hskpf, ht, f1]
+      simp [nlT]
+
+
+/-! ## Binary commands over simple commands (`&&`, `||`, `|`) -/
+
+/-- a step of the printer: options and `firstLine` kept, `mustNewline` stays off, tokens added -/
+structure Adv (p p' : P) (ts : List ATok) : Prop where
+  o : p'.o = p.o
+  must : p.mustNewline = false → p'.mustNewline = false
+  first : p'.firstLine = p.firstLine
+  toks : p'.sum.toks = p.sum.toks ++ ts
+  w : W p'
+
+theorem Adv.of_emits {a b : P} {ts : List ATok} (h : Emits a b ts) : Adv a b ts :=
+  ⟨h.same.o, fun hm => by rw [h.same.must]; exact hm, h.same.first, h.toks, h.w⟩
+
+theorem Adv.of_quiet {a b : P} (h : Quiet a b) : Adv a b [] := Adv.of_emits (Emits.of_quiet h)
+
+theorem Adv.trans {a b c : P} {t1 t2 : List ATok} (h1 : Adv a b t1) (h2 : Adv b c t2) : Adv a c (t1 ++ t2) :=
+  ⟨h2.o.trans h1.o, fun hm => h2.must (h1.must hm), h2.first.trans h1.first,
+    by rw [h2.toks, h1.toks, List.append_assoc], h2.w⟩
+
+/-- `&&`, `||`, `|` after a word or after layout -/
+theorem step_binop (a : Sum) (op : BinOp)
+    (h : ∀ l, a.last = some l → (match l with | .op _ => False | _ => True)) :
+    a.step (.op op.str) = { last := some (.op op.str), sk := false, toks := a.toks ++ [opA op], ok := a.ok } := by
+  have key : ∀ l : Piece, (match l with | .op _ => False | _ => True) →
+      followOK l (some 38) = true ∧ followOK l (some 124) = true := by
+    intro l hl
+    cases l with
+    | word _ => exact ⟨rfl, rfl⟩
+    | gap _ => exact ⟨rfl, rfl⟩
+    | op x => exact absurd hl (by simp)
+  cases op with
+  | andStmt =>
+    simp only [Sum.step, pieceSk, pieceToks, Piece.shapeOK, Piece.first?, Piece.bytes, BinOp.str, List.head?_cons,
+      show opTok [38, 38] = some ATok.andAnd from by decide, Option.isSome_some, Bool.and_true, opA]
+    cases hl : a.last with
+    | none => simp
+    | some l => simp [(key l (h l hl)).1]
+  | orStmt =>
+    simp only [Sum.step, pieceSk, pieceToks, Piece.shapeOK, Piece.first?, Piece.bytes, BinOp.str, List.head?_cons,
+      show opTok [124, 124] = some ATok.orOr from by decide, Option.isSome_some, Bool.and_true, opA]
+    cases hl : a.last with
+    | none => simp
+    | some l => simp [(key l (h l hl)).2]
+  | pipe =>
+    simp only [Sum.step, pieceSk, pieceToks, Piece.shapeOK, Piece.first?, Piece.bytes, BinOp.str, List.head?_cons,
+      show opTok [124] = some ATok.pipe from by decide, Option.isSome_some, Bool.and_true, opA]
+    cases hl : a.last with
+    | none => simp
+    | some l => simp [(key l (h l hl)).2]
+
+theorem needsGap_binop (op : BinOp) : needsGap (.op op.str) = false := by
+  cases op <;> simp [needsGap, BinOp.str]
+
+/-- the last piece is a word or layout -/
+def LastWG (p : P) : Prop := ∀ l, p.sum.last = some l → (match l with | .op _ => False | _ => True)
+
+theorem LastWG.of_quiet {p q : P} (h : LastWG p) (hq : Quiet p q) : LastWG q := by
+  intro l hl
+  rcases hq.last with e | ⟨g, e⟩
+  · exact h l (e ▸ hl)
+  · rw [e] at hl; cases hl; trivial
+
+theorem AfterWord.lastWG {p : P} (h : AfterWord p) : LastWG p := by
+  intro l hl
+  obtain ⟨parts, e⟩ := h.last
+  rw [e] at hl; cases hl; trivial
+
+/-- `p.spacedToken(op)` -/
+theorem Adv.spacedToken (p : P) (hw : W p) (hl : LastWG p) (op : BinOp) :
+    Adv p (p.spacedToken op.str) [opA op] ∧ (p.spacedToken op.str).sum.sk = false := by
+  unfold P.spacedToken
+  split
+  · let q : P := { (p.tok op.str) with wantSpace := .notRequired }
+    have hs : q.sum = p.sum.step (.op op.str) := P.sum_push p _ _ rfl
+    have hst := step_binop p.sum op hl
+    refine ⟨⟨rfl, fun h => h, rfl, by show q.sum.toks = _; rw [hs, hst], ⟨by show q.sum.ok = true; rw [hs, hst]; exact hw.ok, ?_⟩⟩,
+      by show q.sum.sk = false; rw [hs, hst]⟩
+    intro l hl' hn
+    have : q.sum.last = some l := hl'
+    rw [hs, hst] at this
+    simp only [Option.some.injEq] at this
+    subst this
+    rw [needsGap_binop] at hn
+    cases hn
+  · obtain ⟨hq, _⟩ := Quiet.spacePad hw
+    have hl2 := hl.of_quiet hq
+    let q : P := { (p.spacePad.tok op.str) with wantSpace := .required }
+    have hs : q.sum = p.spacePad.sum.step (.op op.str) := P.sum_push _ _ _ rfl
+    have hst := step_binop p.spacePad.sum op hl2
+    refine ⟨⟨hq.same.o, fun h => by show p.spacePad.mustNewline = false; rw [hq.same.must]; exact h, hq.same.first,
+      by show q.sum.toks = _; rw [hs, hst, hq.toks], ⟨by show q.sum.ok = true; rw [hs, hst]; exact hq.w.ok, fun _ _ _ => rfl⟩⟩,
+      by show q.sum.sk = false; rw [hs, hst]⟩
+
+
+/-- `p.newline(pos)` -/
+theorem Adv.newline (p : P) (hw : W p) (l : Nat) :
+    Adv p (p.newline l) (if p.sum.sk then [] else [.newl]) ∧ (p.newline l).sum.sk = true := by
+  unfold P.newline
+  let q : P := { (p.gapw [10]) with wantSpace := .written, wantNewline := false, mustNewline := false }
+  have hs : q.sum = p.sum.step (.gap [10]) := P.sum_push p _ _ rfl
+  have hwq : W q := ⟨by rw [hs, step_nl]; exact hw.ok, by
+    intro x hx hn
+    rw [hs, step_nl] at hx
+    simp only [Option.some.injEq] at hx
+    subst hx
+    simp [needsGap] at hn⟩
+  have qa := Quiet.advanceLine hwq l
+  refine ⟨⟨qa.same.o, fun _ => by rw [qa.same.must], qa.same.first, ?_, qa.w⟩, by rw [qa.sk, hs, step_nl]⟩
+  rw [qa.toks, hs, step_nl]
+
+/-- the operator of a binary command with the layout around it -/
+theorem Adv.binaryOp (p : P) (hw : W p) (hl : LastWG p) (hsk : p.sum.sk = false) (opPos : Pos) (op : BinOp)
+    (yl : Nat) (yb : Bool) :
+    ∃ nl : Bool, Adv p (p.binaryOp opPos op yl yb).1 (opA op :: nlT nl) ∧ (p.binaryOp opPos op yl yb).1.sum.sk = nl := by
+  unfold P.binaryOp
+  split
+  · obtain ⟨h1, h2⟩ := Adv.spacedToken p hw hl op
+    have qa := Quiet.advanceLine h1.w yl
+    exact ⟨false, by simpa [nlT] using h1.trans (Adv.of_quiet qa), by rw [qa.sk, h2]⟩
+  · dsimp only
+    -- optional indentation level
+    have h0 : ∃ q : P, q = (if (!p.nestedBinary) = true then p.incLevel else p) ∧ Quiet p q := by
+      refine ⟨_, rfl, ?_⟩
+      split
+      · exact (Quiet.incLevel hw).1
+      · exact Quiet.rfl' hw
+    obtain ⟨q, hq, hqq⟩ := h0
+    rw [← hq]
+    have hlq := hl.of_quiet hqq
+    split
+    · -- operator on the next line, after an escaped newline
+      obtain ⟨hb, _⟩ := Quiet.bslashNewl hqq.w
+      obtain ⟨h1, h2⟩ := Adv.spacedToken q.bslashNewl hb.w (hlq.of_quiet hb) op
+      have qa := Quiet.advanceLine h1.w yl
+      have hfin : Quiet (q.bslashNewl.spacedToken op.str |>.advanceLine yl)
+          { (q.bslashNewl.spacedToken op.str |>.advanceLine yl) with nestedBinary := yb } :=
+        Quiet.of_out qa.w rfl ⟨rfl, rfl, rfl, rfl, rfl⟩ rfl
+      refine ⟨false, ?_, ?_⟩
+      · have := ((Adv.of_quiet (hqq.trans hb)).trans h1).trans (Adv.of_quiet (qa.trans hfin))
+        simpa [nlT] using this
+      · show (P.sum { (q.bslashNewl.spacedToken op.str |>.advanceLine yl) with nestedBinary := yb }).sk = false
+        rw [hfin.sk, qa.sk, h2]
+    · -- operator at the end of the line
+      obtain ⟨h1, h2⟩ := Adv.spacedToken q hqq.w hlq op
+      have qa := Quiet.advanceLine h1.w opPos.line
+      obtain ⟨hn, hnsk⟩ := Adv.newline _ qa.w 0
+      obtain ⟨hi, _⟩ := Quiet.indent hn.w
+      have qb := Quiet.advanceLine hi.w yl
+      have hfin : Quiet ((((q.spacedToken op.str).advanceLine opPos.line).newline 0).indent.advanceLine yl)
+          { ((((q.spacedToken op.str).advanceLine opPos.line).newline 0).indent.advanceLine yl) with nestedBinary := yb } :=
+        Quiet.of_out qb.w rfl ⟨rfl, rfl, rfl, rfl, rfl⟩ rfl
+      refine ⟨true, ?_, ?_⟩
+      · have hskq : ((q.spacedToken op.str).advanceLine opPos.line).sum.sk = false := by rw [qa.sk, h2]
+        rw [hskq] at hn
+        have := (((Adv.of_quiet hqq).trans h1).trans (Adv.of_quiet qa)).trans
+          (hn.trans (Adv.of_quiet (hi.trans (qb.trans hfin))))
+        simpa [nlT] using this
+      · show (P.sum { ((((q.spacedToken op.str).advanceLine opPos.line).newline 0).indent.advanceLine yl) with nestedBinary := yb }).sk = true
+        rw [hfin.sk, qb.sk, hi.sk, hnsk]
+
+theorem Quiet.binaryEnd (p : P) (hw : W p) (indent multi : Bool) :
+    Quiet p (p.binaryEnd indent multi) ∧ (p.binaryEnd indent multi).wantSpace = p.wantSpace ∧
+      (p.binaryEnd indent multi).sum = p.sum := by
+  unfold P.binaryEnd
+  split
+  · dsimp only
+    have h0 : ∃ q : P, q = (if indent = true then p.decLevel else p) ∧ Quiet p q ∧ q.wantSpace = p.wantSpace ∧ q.sum = p.sum := by
+      refine ⟨_, rfl, ?_⟩
+      split
+      · obtain ⟨h1, h2⟩ := Quiet.decLevel hw
+        refine ⟨h1, h2, ?_⟩
+        unfold P.decLevel; split <;> exact P.sum_same _ _ rfl
+      · exact ⟨Quiet.rfl' hw, rfl, rfl⟩
+    obtain ⟨q, hq, h1, h2, h3⟩ := h0
+    rw [← hq]
+    have hfin : Quiet q { q with nestedBinary := false } := Quiet.of_out h1.w rfl ⟨rfl, rfl, rfl, rfl, rfl⟩ rfl
+    exact ⟨h1.trans hfin, h2, h3⟩
+  · exact ⟨Quiet.rfl' hw, rfl, rfl⟩
+
+
+/-! ## Statements without subshells and blocks: simple commands joined by `&&`, `||`, `|` -/
+
+mutual
+def Stmt.lin : Stmt → Bool
+  | .mk _ _ _ _ c => c.lin
+def Cmd.lin : Cmd → Bool
+  | .call _ => true
+  | .binary _ _ x y => x.lin && y.lin
+  | _ => false
+end
+
+def Stmts.lin : Stmts → Bool
+  | .nil => true
+  | .cons s r => s.lin && r.lin
+
+/-- what printing a command establishes -/
+structure CmdOut (p p' : P) (c : Cmd) (lc : LCmd) : Prop where
+  adv : Adv p p' lc.toks
+  valid : lc.valid = true
+  norm : lc.norm = c.norm
+  ao : lc.isAndOr = c.isAndOr
+  bin : lc.isBinary = c.isBinary
+  after : AfterWord p'
+  wsemi : p.wroteSemi = false → p'.wroteSemi = false
+  ew : lc.endsInWord = true
+
+/-- what printing a statement establishes -/
+structure StmtOut (p p' : P) (s : Stmt) (ls : LStmt) : Prop where
+  adv : Adv p p' ls.toks
+  valid : ls.valid = true
+  norm : ls.norm = s.norm
+  neg : ls.neg = s.negated
+  ao : ls.cmd.isAndOr = s.cmd.isAndOr
+  bin : ls.cmd.isBinary = s.cmd.isBinary
+  ws : p'.wantSpace = .required
+  sk : p'.sum.sk = false
+  wsemi : p'.wroteSemi = (ls.term != .none)
+  bare : s.bare = true → ls.term = .none
+  single : p.o.singleLine = true → s.bg = false → ls.term = .none
+  amp : (ls.term == .amp) = s.bg
+  last : ls.term = .none → ∃ parts, p'.sum.last = some (.word parts)
+  ew : ls.cmd.endsInWord = true
+
+theorem stmtPre_wroteSemi (p : P) (neg : Bool) : (p.stmtPre neg).wroteSemi = false := by
+  unfold P.stmtPre
+  dsimp only
+  split
+  · unfold P.spacedString P.spacePad
+    split <;> rfl
+  · rfl
+
+mutual
+theorem lin_stmt : ∀ (s : Stmt), s.lin = true → s.wf = true → ∀ (p : P), W p → ∃ ls, StmtOut p (p.stmt s) s ls
+  | .mk pos semi neg bg cmd, hlin, hwf, p, hw => by
+    have hclin : cmd.lin = true := by simpa [Stmt.lin] using hlin
+    simp only [Stmt.wf, Bool.and_eq_true, Bool.not_eq_true'] at hwf
+    obtain ⟨hcwf, hnao⟩ := hwf
+    obtain ⟨h1, h2, h3, _⟩ := Emits.stmtPre p hw neg
+    obtain ⟨lc, hc⟩ := lin_cmd cmd hclin hcwf (p.stmtPre neg) h2 (stmtPre_wroteSemi p neg)
+    have hws : ((p.stmtPre neg).command cmd).wroteSemi = false := hc.wsemi (stmtPre_wroteSemi p neg)
+    obtain ⟨term, e1, e2, e3, e4, e5, e6, e7, e8, e9, e10, e11⟩ := Emits.stmtEnd _ hc.adv.w hc.after hws semi bg
+    refine ⟨.mk neg lc term, ?_⟩
+    have hamp : (term == Term.amp) = bg := by
+      cases bg with
+      | true => rw [e7 rfl]; rfl
+      | false =>
+        have := e8 rfl
+        cases term <;> simp at this ⊢
+    unfold P.stmt
+    refine ⟨⟨?_, ?_, ?_, ?_, e2⟩, ?_, ?_, rfl, ?_, ?_, e4, e5, e6, ?_, ?_, hamp, e10, hc.ew⟩
+    · rw [e3.o, hc.adv.o, h3.o]
+    · intro hm
+      rw [e3.must]
+      exact hc.adv.must (by rw [h3.must]; exact hm)
+    · rw [e3.first, hc.adv.first, h3.first]
+    · rw [e1, hc.adv.toks, h1]
+      simp [LStmt.toks, List.append_assoc]
+    · simp only [LStmt.valid, hc.valid, Bool.true_and, Bool.not_eq_true', hc.ao]
+      exact hnao
+    · simp [LStmt.norm, Stmt.norm, hc.norm, hamp]
+    · simpa [LStmt.cmd, Stmt.cmd] using hc.ao
+    · simpa [LStmt.cmd, Stmt.cmd] using hc.bin
+    · intro hb
+      simp only [Stmt.bare, Stmt.bg, Stmt.semi, Bool.and_eq_true, Bool.not_eq_true'] at hb
+      exact e11 hb.2 hb.1
+    · intro hsl hbg
+      apply e9 _ hbg
+      rw [hc.adv.o, h3.o]
+      exact hsl
+theorem lin_cmd : ∀ (c : Cmd), c.lin = true → c.wf = true → ∀ (p : P), W p → p.wroteSemi = false →
+    ∃ lc, CmdOut p (p.command c) c lc
+  | .call args, _, hwf, p, hw, hws => by
+    obtain ⟨hane, hawf⟩ := call_wf_args hwf
+    obtain ⟨c1, c2⟩ := Emits.command_call args hane hawf p hw
+    refine ⟨.call (args.map Word.norm), ⟨?_, ?_, ?_, rfl, rfl, c2, fun _ => by rw [c1.same.wsemi]; exact hws, rfl⟩⟩
+    · have := Adv.of_emits c1
+      simpa [LCmd.toks, List.map_map, Function.comp_def] using this
+    · have := mkL_valid false args .none hwf
+      simpa [mkL, LStmt.valid, LCmd.isAndOr] using this
+    · simp [LCmd.norm, Cmd.norm]
+  | .subshell _ _ _, hlin, _, _, _, _ => by simp [Cmd.lin] at hlin
+  | .block _ _ _, hlin, _, _, _, _ => by simp [Cmd.lin] at hlin
+  | .binary opPos op x y, hlin, hwf, p, hw, hws => by
+    simp only [Cmd.lin, Bool.and_eq_true] at hlin
+    simp only [Cmd.wf, Bool.and_eq_true] at hwf
+    obtain ⟨⟨⟨⟨hxwf, hywf⟩, hxb⟩, hyb⟩, hshape⟩ := hwf
+    have q1 := Quiet.advanceLine hw x.pos.line
+    obtain ⟨q2, _⟩ := Quiet.spacePad q1.w
+    obtain ⟨lsx, hx⟩ := lin_stmt x hlin.1 hxwf _ q2.w
+    have hxt := hx.bare hxb
+    have hlast : LastWG (((p.advanceLine x.pos.line).spacePad).stmt x) := by
+      intro l hl
+      obtain ⟨parts, e⟩ := hx.last hxt
+      rw [e] at hl; cases hl; trivial
+    obtain ⟨nl, hb, hbsk⟩ := Adv.binaryOp _ hx.adv.w hlast hx.sk opPos op y.pos.line
+      y.isBinaryCmd
+    obtain ⟨lsy, hy⟩ := lin_stmt y hlin.2 hywf _ hb.w
+    have hyt := hy.bare hyb
+    obtain ⟨qe, qews, qesum⟩ := Quiet.binaryEnd _ hy.adv.w
+      (((p.advanceLine x.pos.line).spacePad.stmt x).binaryOp opPos op y.pos.line y.isBinaryCmd).2.1
+      (((p.advanceLine x.pos.line).spacePad.stmt x).binaryOp opPos op y.pos.line y.isBinaryCmd).2.2
+    refine ⟨.binary op nl lsx lsy, ?_⟩
+    unfold P.command
+    dsimp only
+    refine ⟨?_, ?_, ?_, ?_, rfl, ?_, ?_, ?_⟩
+    · have := (((Adv.of_quiet (q1.trans q2)).trans hx.adv).trans hb).trans (hy.adv.trans (Adv.of_quiet qe))
+      simpa [LCmd.toks, List.append_assoc] using this
+    · simp only [LCmd.valid, hx.valid, hy.valid, hxt, hyt, beq_self_eq_true, Bool.and_self, Bool.true_and]
+      cases op with
+      | pipe =>
+        simp only [Bool.and_eq_true, Bool.not_eq_true'] at hshape ⊢
+        obtain ⟨⟨⟨s1, s2⟩, s3⟩, s4⟩ := hshape
+        exact ⟨⟨⟨by rw [hx.neg]; exact s1, by rw [hy.neg]; exact s2⟩, by rw [hx.ao]; exact s3⟩, by rw [hy.bin]; exact s4⟩
+      | andStmt => simpa [hy.ao] using hshape
+      | orStmt => simpa [hy.ao] using hshape
+    · simp [LCmd.norm, Cmd.norm, hx.norm, hy.norm]
+    · cases op <;> rfl
+    · exact ⟨by rw [qews]; exact hy.ws, by rw [qesum]; exact hy.sk, by
+        obtain ⟨parts, e⟩ := hy.last hyt
+        exact ⟨parts, by rw [qesum]; exact e⟩⟩
+    · intro _
+      rw [qe.same.wsemi, hy.wsemi, hyt]
+      rfl
+    · simp only [LCmd.endsInWord, LStmt.endsInWord]
+      obtain ⟨n, c, t⟩ := lsy
+      simp only [LStmt.term] at hyt
+      subst hyt
+      simpa [LStmt.endsInWord, LStmt.cmd] using hy.ew
+end
+
 end ShVerif.L4
